@@ -68,7 +68,8 @@ CHECKS = {
                 "update equals accum | (tag1[i]^tag2[i]) at bit granularity, its range is [0,255] by a known-bits fixpoint, and the fold is evaluated exhaustively on all 256 values: 0 -> 0, rest -> -1. "
                 "(SENS) every ciphertext bit of a segment reaches the recovered plaintext bit and the authenticated state; (ABSORB) the shared absorb function leaves a state that is an injective "
                 "function of the bytes of every segment (rank of the GF(2)-linear map the bytes enter by; otherwise a concrete pair of inputs absorbed alike is the refutation) - the premise of "
-                "'modified associated data is rejected'.",
+                "'modified associated data is rejected'; (KEY) the key words are an injective function of the key bytes in every decrypt function and every nonce bit enters the state in every "
+                "path class of the shared setup function - premises of 'a modified key or nonce is rejected'.",
         "note": "Decides that the verdict is 0 exactly when all 64 bits of the computed and received tag agree, for every path; that the computed tag depends on every input bit is a property of the "
                 "cipher (structure under C02), and the 2^-64 bound is not a code property. N0 (source-shaped) IR of clang 14 only.",
         "technique": "finite-class abstract execution + affine cursor/length analysis (SCEV) + bit-provenance and known-bits abstract interpretation",
@@ -123,7 +124,7 @@ CHECKS = {
                 " R-C08-SETUPFN (setup is a function of the nonce bytes on every path class and every nonce bit enters the state), R-C08-NOSTATE (no writable global state reachable), R-C08-SMALL "
                 "(every length 0..100 as straight paths: i/o and memory discipline, refusal of inputs shorter than a tag; relationally for every length 0..80: decrypt's two passes are encrypt's two passes on the same inputs, plaintext recovered bit for bit, regenerated tag = stored tag). "
                 "R-C08-ABSORB: the shared absorb function (associated data, and the plaintext of the authentication pass) is injective in the bytes of every segment - a loss of input bits made alike "
-                "in both directions keeps the round trip but lets modified bodies or associated data through.",
+                "in both directions keeps the round trip but lets modified bodies or associated data through. R-C08-KEY: the key words are an injective function of the key bytes.",
         "note": "Values not computed; tag sensitivity is a cipher property; check_tag itself is decided under C03/C04. Consistent deviations from the construction are C09's.",
         "technique": "relational symbolic path summaries (encrypt vs decrypt) in a GF(2) term domain; finite-class execution for the length guard",
     },
